@@ -106,7 +106,13 @@ func (m *nL2Runner) Run(t *task.Task) error {
 	select {
 	case outcome = <-st.release:
 	case <-l.cancelCh:
-		outcome = "canceled"
+		// told to stop: what the task makes of it is the trace's decision (dies of the interrupt, exits
+		// with a status of its own, finishes regularly); without an instruction it dies
+		select {
+		case outcome = <-st.release:
+		case <-time.After(400 * time.Millisecond):
+			outcome = "canceled"
+		}
 	}
 	l.mu.Lock()
 	defer l.mu.Unlock()
@@ -248,6 +254,8 @@ func TestVerifReplayL2(t *testing.T) {
 			switch {
 			case strings.HasSuffix(ev, "ends ok"):
 				st.release <- "ok"
+			case strings.HasSuffix(ev, "ends canceled"):
+				st.release <- "canceled"
 			case strings.HasSuffix(ev, "ends with failure"):
 				st.release <- "fail"
 				if failFast && !st.allowFail {
